@@ -29,7 +29,7 @@ def corpus():
 
 def run_impl(case):
     from vivarium.core.engine import Engine
-    from vivarium.core.process import Process
+    from vivarium.core.process import Process, Step
     from vivarium.core.composer import Composer
 
     class Grow(Process):
@@ -43,17 +43,28 @@ def run_impl(case):
             r = self.parameters['growth']['rate']
             return {'vars': {'mass': r, 'rate': r}}
 
+    class Note(Step):
+        def ports_schema(self):
+            return {'vars': {'mass': {'_default': 0}}}
+
+        def next_update(self, timestep, states):
+            return {}
+
     class Cell(Composer):
         defaults = {'growth': {'rate': 1}, 'tags': ['cell']}
 
         def generate_processes(self, config):
             return {'grow': Grow({'growth': config['growth']})}
 
+        def generate_steps(self, config):
+            return {'note': Note()}
+
         def generate_topology(self, config):
-            return {'grow': {'vars': ('vars',)}}
+            return {'grow': {'vars': ('vars',)}, 'note': {'vars': ('vars',)}}
 
     composer = Cell({})
     before = copy.deepcopy(composer.config)
+    issued = []          # the `daughters` lists handed to the engine
 
     class Trigger(Process):
         def __init__(self, parameters=None):
@@ -72,6 +83,7 @@ def run_impl(case):
                 comp = composer.generate(cfg)
                 out.append({'key': k, 'processes': comp['processes'], 'steps': comp['steps'],
                             'flow': comp['flow'], 'topology': comp['topology']})
+            issued.append(out)
             return out
 
         def next_update(self, timestep, states):
@@ -97,6 +109,10 @@ def run_impl(case):
             rates.append({k: v['vars']['rate'] for k, v in agents.items()})
         obs['rates'] = rates
         obs['composer_intact'] = composer.config == before
+        # the update object handed in is not modified: each daughter still lists its process under `processes`
+        # and its step under `steps` (F43)
+        obs['updates_intact'] = all(sorted(d['processes']) == ['grow'] and sorted(d['steps']) == ['note']
+                                    for ds in issued for d in ds)
         obs['composer_now'] = repr(composer.config)[:200]
     except Exception as e:  # noqa
         obs['raised'] = f'{type(e).__name__}: {str(e)[:200]}'
@@ -125,6 +141,9 @@ def oracle(case, impl):
                 break
         if fails:
             break
+    if impl.get('updates_intact') is False:
+        fails.append('update-modified: the `_divide` update handed to the engine was rewritten (the daughters\' '
+                     'steps were merged into their `processes` dictionaries)')
     if not impl['composer_intact']:
         fails.append(f'outside-changed: generating the daughters rewrote the composer\'s own configuration: '
                      f'{impl["composer_now"]}')
